@@ -327,6 +327,9 @@ func TestPropAcceptance(t *testing.T) {
 		// warm-up: clean exchanges (may bring the client into interleaved mode)
 		var prevWin window
 		nWarm := rapid.IntRange(0, 2).Draw(t, "warmup")
+		if useNTS && nWarm == 0 {
+			nWarm = 1 // the TLS key exchange must not eat the scripted call's short deadline
+		}
 		var otherUID []byte
 		for i := 0; i < nWarm; i++ {
 			srv.SetDefault(netlab.Plan{Theta: nextTheta(), Build: ntsBuild(0xaa)})
